@@ -52,7 +52,7 @@ var props = map[string]propSpec{
 	"C04": {scenarios: []string{"C04", "C04", "C04r", "C12"}, level: "exploration", quickRuns: 2500, thoroughRuns: 60000, runLimit: 30 * time.Second,
 		requiredProbes: []string{"stale-ack", "repeated-ack", "ack-burst", "absorbed-event-tracked", "offsets-api-compared", "seq-gauge-compared"}},
 	"C05": {level: "exploration", quickRuns: 2500, thoroughRuns: 60000, runLimit: 30 * time.Second,
-		requiredProbes: []string{"ack-during-store-call", "explicit-save", "clean-save-episode", "failed-save-episode", "advanced-by-non-document-event", "parked-at:consumer.trackoffset"}},
+		requiredProbes: []string{"ack-during-store-call", "explicit-save", "clean-save-episode", "failed-save-episode", "advanced-by-non-document-event", "parked-at:consumer.trackoffset", "shutdown-save-judged"}},
 	"C01": {level: "exploration", quickRuns: 2500, thoroughRuns: 60000, runLimit: 30 * time.Second,
 		requiredProbes: []string{"checkpoint-write-judged", "crash-with-unacked-delivery", "restart-after-crash-with-unacked-event", "absorbed-event-while-earlier-delivery-unacked"}},
 	"C06": {scenarios: []string{"C06", "C06", "C06", "C06", "C15", "C08"}, level: "exploration", quickRuns: 3600, thoroughRuns: 60000, runLimit: 30 * time.Second,
@@ -66,7 +66,7 @@ var props = map[string]propSpec{
 	"C02": {level: "exploration", quickRuns: 2500, thoroughRuns: 60000, runLimit: 30 * time.Second,
 		requiredProbes: []string{"checkpoint-written", "latest-reset", "read-only-session", "seeded:>=2^63", "seeded:2^53..2^63", "seeded:0"}},
 	"C08": {level: "exploration", quickRuns: 2500, thoroughRuns: 60000, runLimit: 30 * time.Second,
-		requiredProbes: []string{"rollback-honoured", "rollback:R=F", "rollback:R=0", "rollback:R<F", "event-exactly-at-F", "second-rollback", "re-request-failed"}},
+		requiredProbes: []string{"rollback-honoured", "rollback:R=F", "rollback:R=0", "rollback:R<F", "event-exactly-at-F", "second-rollback", "re-request-failed", "rollback-on-a-re-open"}},
 	"C15": {scenarios: []string{"C15", "C15", "C15", "C12"}, level: "fault_enumeration", quickRuns: 2700, thoroughRuns: 40000, runLimit: 30 * time.Second,
 		requiredProbes: []string{"startup-fault:none", "startup-fault:ckpt-above-high", "startup-fault:load-error", "startup-fault:load-silent", "startup-fault:seqnos-error", "startup-fault:flog-error", "startup-fault:sreq-error", "startup-fault:sreq-silent", "startup-fault:bad-membership", "startup-fault:bad-metadata", "startup-fault:file-read-error", "ckpt-above-high:vb-missing-in-seqno-reply", "stream-ended-during-open-judged"}},
 	"C12": {scenarios: []string{"C12", "C12", "C12", "C12r"}, level: "exploration", quickRuns: 2500, thoroughRuns: 60000, runLimit: 30 * time.Second,
